@@ -80,12 +80,14 @@ def main():
     hcm = rb.compile_harness(os.path.join(vlib.VERIF, "harness", "h_cmap.c"), os.path.join(vlib.scratch(), "h_cmap"), objs=[o for o in objs_ if o != "constmap.o"], libs=libs_)
     hcdb = rb.harness("h_cdb", "qmail-newmrh", extra_objs=["cdb.a"])
     cdbtmp = os.path.join(vlib.scratch(), "h_cdb.tmp")
-    PIECES = [b"more.dom", b".More.DOM", b"# comment", b"", b" ", b"x.y \t ", b"  lead", b"#", b"a\tb", b"dup", b"dup", b"ZONE.example", b".zz.Dom", b"jazz.dom"]
-    texts = [b"more.dom\n.more.dom\n", b"", b"\n", b"no-newline-at-end"]
+    LONG33 = b"a" * 29 + b".dom"; LONG46 = b"host-with-a-rather-long-name.sub.example.dom.xx"; LONG70 = b"x" * 31 + b"." + b"y" * 34 + b".dom"
+    PIECES = [b"more.dom", b".More.DOM", b"# comment", b"", b" ", b"x.y \t ", b"  lead", b"#", b"a\tb", b"dup", b"dup", b"ZONE.example", b".zz.Dom", b"jazz.dom",
+              LONG33, b"." + LONG46, LONG70, LONG33[:-1] + b"n", b"b" * 32]
+    texts = [b"more.dom\n.more.dom\n", b"", b"\n", b"no-newline-at-end", LONG33 + b"\n." + LONG46 + b"\n" + LONG70 + b"\nb" + b"b" * 31 + b"\n"]
     for _ in range(40 if ck.thorough else 12):
         t = b"".join(rng.choice(PIECES) + rng.choice([b"\n", b"\n", b" \n", b"\t\n"]) for _ in range(rng.randint(0, 9)))
         texts.append(t[:-1] if t and rng.random() < 0.3 else t)
-    texts.append(b"".join(b"h%d.bulk.dom\n" % k for k in range(400)))          # many records: collisions and long probe chains
+    texts.insert(1, b"".join(b"h%d.bulk.dom\n" % k for k in range(400)))          # many records: collisions, long probe chains, wrap-around
     imgs = []
     for t in texts:
         open(os.path.join(S.cd, "morercpthosts"), "wb").write(t)
@@ -114,8 +116,11 @@ def main():
                 i_ = rng.randrange(len(real)) if k_ < 0.8 else rng.randrange(0, 2048)
                 variants.append(real[:i_] + bytes([rng.randrange(256)]) + real[i_ + 1:])
         for img in variants:
-            if len(img) > 20000: continue
-            for dom in [b"more.dom", b"sub.more.dom", b"MORE.dom", b"x.y", b"a\tb", b"zone.example", b"q.zz.dom", b"unlisted.dom", b"ok.dom", b"dup", b"lead"]:
+            if len(img) > 20000 or (len(img) > 9000 and img is not real): continue
+            doms = [b"more.dom", b"sub.more.dom", b"MORE.dom", b"x.y", b"a\tb", b"zone.example", b"q.zz.dom", b"unlisted.dom", b"ok.dom", b"dup", b"lead",
+                    LONG33, b"sub." + LONG46, LONG70, LONG33[:-1] + b"n", LONG33 + b"x", b"b" * 32, b"b" * 33]
+            if img is real and len(real) > 9000: doms = [b"h%d.bulk.dom" % k for k in range(400)] + [b"h400.bulk.dom", b"bulk.dom"]     # every record of a large file
+            for dom in doms:
                 glines.append("get %s %s" % (vlib.hx(img), vlib.hx(dom.lower())))
                 sess.append((img, dom))
     ga, _, _ = vlib.run_lines([hcdb, cdbtmp], glines)
@@ -123,7 +128,19 @@ def main():
     for l_, x_, y_ in zip(glines, ga, gb):
         ck.evaluated(); ck.count("cdb_lookups_" + x_[:1])
         if x_ != y_: mism.append(dict(kind="input", component="cdb_seek", query=l_[:200], real=x_, model=y_))
-    sub = sess if ck.thorough else rng.sample(sess, min(len(sess), 120))
+    def listed(text, dom):
+        # independent reading of the documented rule: lower-cased entries of the text, exact or dot-suffix wildcard
+        ents = set()
+        for l_ in text.split(b"\n"):
+            l_ = l_.lower().rstrip(b" \t")
+            if l_ and not l_.startswith(b"#"): ents.add(l_)
+        d_ = dom.lower()
+        return d_ in ents or any(d_[k:] in ents for k in range(len(d_)) if d_[k:k + 1] == b".")
+    img_text = {id(real): t for t, real in zip(texts, imgs) if real is not None}
+    must = [(img, dom) for img, dom in sess if id(img) in img_text and (len(dom) > 30 or dom.startswith(b"h1") or dom in (b"more.dom", b"sub.more.dom", b"unlisted.dom"))]
+    must = must[:60] if not ck.thorough else must
+    rest = [x for x in sess if x not in must]
+    sub = sess if ck.thorough else must + rng.sample(rest, min(len(rest), 90))
     rl, _, _ = vlib.run_lines(tdrv, ["rh %s %s %s" % (vlib.hx(rhbuf), vlib.hx(img), vlib.hx(b"joe@" + dom)) for img, dom in sub])
     for (img, dom), mr in zip(sub, rl):
         open(cdbp, "wb").write(img)
@@ -137,6 +154,9 @@ def main():
         obj = dict(kind="input", config="rcpthosts=ok.dom,Plaza.Example; morercpthosts.cdb = %d bytes (hex %s...)" % (len(img), img[:24].hex()), session=data.decode("latin1"), observed_codes=codes, model=mr)
         if got == 250 and mr != "Y" and not any(k in dom.lower() for k in [b"ok.dom"]):
             fails.append(("smtpd:accepted-what-policy-refuses", obj, len(img)))
+        elif id(img) in img_text and got != 250 and (listed(img_text[id(img)], dom) or dom.lower() in (b"ok.dom", b"plaza.example")):
+            # the file is the one qmail-newmrh just compiled from a text that lists this domain
+            fails.append(("smtpd:rejected-what-policy-accepts", dict(obj, morercpthosts_text=img_text[id(img)].decode("latin1")[:300]), len(dom)))
         elif got != want: mism.append(obj)
     if os.path.exists(cdbp): os.remove(cdbp)
     # constmap: structure and lookups
